@@ -70,3 +70,16 @@ CHECKS["C05"] = dict(
     assumptions=["non-local forbidden destinations have no sink: judged by reported status only", "address classes available on this host are detected at run time"],
     units=[unit("props", ["Func", "TCP", "UDP"], "C05"), unit("props", ["Sweep"], "C05", shards=(4, 16), timeout=(240, 3000))],
 )
+
+CHECKS["C06"] = dict(
+    level="exploration",
+    rule="(FakeTime) rapid-generated probes against the real StreamHandler with the production 59 s timeout inside a testing/synctest bubble per case: "
+         "random bytes of length 0..70000 (biased to 49/50/51 and salt+18 boundaries), valid streams truncated at any offset, single bit flips anywhere in the first 130 bytes, "
+         "foreign-key streams, exact replays (cache on), reflected server salts, bad address type, corrupted address chunk, incomplete address; key lists of 1..12 (thorough 100) keys, "
+         "all ciphers; client stays open / FINs at a generated instant / keeps trickling bytes; generated write segmentation with fake-time gaps. Deadlines compared with ==. "
+         "(Real) batches of up to 32 concurrent probes over loopback TCP with a 250 ms timeout, plus post-dial corruption against a target that never closes. "
+         "Non-trivial = probe derived from a valid stream (truncate/flip/replay/reflect/foreign key/invalid-after-auth), or random bytes of length 48..52 or >66. "
+         "Complete valid requests produced by a mutation (e.g. a flip beyond the header) are classified by the reference codec and not judged.",
+    assumptions=["fake-time engine runs under go1.26.8 timer semantics (asynctimerchan=0)", "real-socket upper bounds are reported only if they reproduce 3 times in isolation"],
+    units=[unit("props26", ["FakeTime"], "C06"), unit("props", ["Real"], "C06")],
+)
